@@ -76,8 +76,12 @@ func (t *FnTrans) instr(b *ssa.BasicBlock, idx int, in ssa.Instruction, st *Heap
 	case *ssa.FieldAddr:
 		t.fieldAddr(x, reach)
 	case *ssa.IndexAddr:
+		// site index <text>: hook BEFORE the element is addressed (and before the
+		// "no panic at an earlier index" assumption that follows it)
+		t.siteHook("index", x, b, idx, st, reach)
 		t.indexAddr(x, st, reach)
 	case *ssa.Index:
+		t.siteHook("index", x, b, idx, st, reach)
 		t.indexInstr(x, reach)
 	case *ssa.Lookup:
 		t.lookup(x, st, reach)
